@@ -5,6 +5,7 @@ import TeosVerif.Driver.ConfigDrv
 import TeosVerif.Driver.LocksDrv
 import TeosVerif.Driver.OutageDrv
 import TeosVerif.Driver.ClientDrv
+import TeosVerif.Driver.PluginDrv
 /- The model driver: one operation per input line, one canonical output line per operation. -/
 open Teos Teos.Drv
 
@@ -13,6 +14,7 @@ structure DState where
   tw : TwState := {}
   ou : Teos.Outage.St := {}
   cl : Teos.Client.Client := Teos.Client.Client.fresh
+  pl : Teos.Plugin.St := {}
 
 def step (st : DState) (line : String) : DState × String :=
   match words line with
@@ -22,6 +24,8 @@ def step (st : DState) (line : String) : DState × String :=
   | "cf" :: rest => (st, cfStep rest)
   | "cc" :: rest => (st, ccStep rest)
   | "ou" :: rest => let (t, o) := ouStep st.ou rest; ({ st with ou := t }, o)
+  | "pl" :: rest => let (t, o) := plStep st.pl rest; ({ st with pl := t }, o)
+  | "px" :: _ => (st, "-")
   | "cl" :: rest => let (t, o) := clStep st.cl rest; ({ st with cl := t }, o)
   | "tw" :: rest => let (t, o) := twStep st.tw rest; ({ st with tw := t }, o)
   | _ => (st, "bad-op")
